@@ -536,8 +536,9 @@ class Run(object):
                     stats.probe("add_nonstring_accepted")
                     raise StopRun()
                 if raised is None:
-                    # rejected a moment ago, accepted now, same argument
-                    self.fail("failed_add_repeats", op, "returned", "the exception of the first attempt", {"what": what, "attempt": attempt})
+                    # rejected a moment ago, silently returning now: tolerated as such;
+                    # the sweep below still demands that nothing was added
+                    stats.probe("retried_add_returned_silently")
                 stats.fault("add_raises")
                 if attempt:
                     stats.probe("failed_call_retried")
